@@ -203,6 +203,12 @@ model_event_print(struct model *model, struct emu_ev *ev,
 		return -1;
 	}
 
+	/* Don't decode arguments that are not in the payload */
+	if (ev_spec_check_payload(es, ev) != 0) {
+		err("payload of event %s doesn't match its definition", ev->mcv);
+		return -1;
+	}
+
 	if (ev_spec_print(es, ev, buf, buflen) < 0) {
 		err("cannot print event signature for %s", ev->mcv);
 		return -1;
